@@ -285,9 +285,19 @@ def run(ctx):
     slow_eof_cases(ctx)
     # real children that die at any point, at the OS level or through Python
     from harness import corr_c02
-    corr_c02.run_cases(ctx, corr_c02.death_cases(ctx, 10 if ctx.quick() else 200)
-                       + corr_c02.stdin_cases(ctx, 2 if ctx.quick() else 30)
-                       + corr_c02.noisy_cases(ctx, 6 if ctx.quick() else 100))
+    wcases = (corr_c02.death_cases(ctx, 10 if ctx.quick() else 200) + corr_c02.stdin_cases(ctx, 2 if ctx.quick() else 30)
+              + corr_c02.noisy_cases(ctx, 6 if ctx.quick() else 100))
+    corr_c02.run_cases(ctx, wcases)
+    # "records exactly the child's number of tests run and exactly the names": the totals and the name lists of these
+    # runs against what happened (the monitor of C12)
+    from harness import corr_c12
+    mon12 = corr_c12.make_monitor(ctx)
+    for c in wcases:
+        if c.label == "child-dies" or c.obs is None or c.obs.timeout:
+            continue
+        bad = mon12(c)
+        if bad and not bad[1].startswith("known:"):
+            ctx.violation(bad[0] + " (opts %r)" % c.opts, c.replay_obj(), signature="C07:" + bad[1])
 
 
 STDOUT_LINES = [b"...\rprogress of a test\n", b"  Ran 3 tests with 0 failures\n", b".\n", b"....\n", b"..\r\n", b"...\r", b"." * 72 + b" done\n",
